@@ -59,7 +59,7 @@ CHECKS = {
                 text="Families with temporaries (a macro used inside its own <P> slot and twice in a sequence; two macros of equal priority with the same temporary numbers) are enumerated over all streams of <= 5 (thorough 6) tokens; every rewriting path is replayed with budgets 1..4 in four layouts (definition per line, one file per macro with equal line numbers, all definitions on one line, 77-character file name). The map from real spellings to specification names must be a bijection on every path - equal n in one step the same name, different steps different names - and no spelling may be a legal identifier. Nested IF-THEN-ELSE/REPEAT uses in generated programs are validated end to end."),
     "C11": dict(level="model_checking", ref="5 (C11), 4.6",
                 technique="TLC model checking of TheoMacro.tla with budgets 1..6 (PassBound, GrowthBound) on divergent and finite macro families + S->I replay of the k-series and of the too-many-substitutions rule; compile() on divergent sets; budget 1024",
-                text="Self-reproducing, growing, mutually recursive, finite and ordinary families x budgets 1..6 x all streams of <= 3 (thorough 4) tokens: in the model never more than `budget` steps and growth <= budget x body length; the real k-series must follow a specification path, the error must be present when a match remains at the end of the budget, absent when rewriting ended early, optional when exactly the budget was needed. Divergent macro sets through compile() must come back marked incorrect; apply_macros with budget 1024 on the growing family must return within the bound."),
+                text="Self-reproducing, growing, mutually recursive, finite and ordinary families x budgets 1..6 (thorough 1..8) x all streams of <= 3 (thorough 5) tokens: in the model never more than `budget` steps and growth <= budget x body length; the real k-series must follow a specification path, the error must be present when a match remains at the end of the budget, absent when rewriting ended early, optional when exactly the budget was needed. Divergent macro sets through compile() must come back marked incorrect; apply_macros with budget 1024 on the growing family must return within the bound."),
     "C12": dict(level="model_checking", ref="5 (C12), 4.7",
                 technique="TLC enumeration of canonical LR(1) prefix-mode conflict verdicts (TheoPattern.tla) for all macro patterns up to length 3-4 (thorough: 4 complete, 5 sampled) + S->I replay into the real macro engine",
                 text="Every pattern of <= 3 symbols and half (thorough: all) of the patterns of length 4 over the five slot kinds and six literal kinds gets its verdict from the canonical LR(1) collection of slot grammar + MACRO -> pattern in prefix mode. Each pattern is defined in an included file between two unrelated usable macros and used once: the non-linear error must be reported at the file and line of the pattern's first token iff there is a conflict; a rejected macro's use stays unrewritten; the unrelated macros defined before and after it are applied in both cases; an accepted pattern's use is rewritten."),
